@@ -21,6 +21,7 @@ EXPLANATION = (
   " (STATE-alias / STATE-global) no function of the anchored modules mutates a module- or class-level container, rebinds module / class state or mutates a mutable default argument, so a result never depends on earlier calls;"
   " (INDEP) tts:origin and tts:position are resolved by independent statements;"
   " (STATE-instance) no filter method other than the constructor writes instance state (one tabled report flag);"
+  ' (COVER) the animation remover is applied to the body and to every region and recurses into every child by default; (FIN-range) the configuration decoders, evaluated over -100..200, reject exactly the values outside their documented range, and regions occupy exactly the configured safe area; (LINT-h) numeric configuration values are never tested by truthiness;'
 )
 RULE_TEXT = "per live loop, per (target kind, property), per external compute() call, per get_body() use, per range test"
 UNDECIDED = ["the text visible at every time is preserved", "idempotence", "merged regions are equivalent (timing, writing mode, alignment as values)",
